@@ -64,10 +64,12 @@ def frames_of(case):
     for vi, v in enumerate(case["videos"]):
         frs = []
         for k, f in enumerate(v):
-            animals = [Animal(tuple(a["centroid"]), [None if p is None else tuple(p) for p in a["pts"]])
+            animals = [Animal(tuple(a["centroid"]), [None if p is None else tuple(p) for p in a["pts"]],
+                              rendered=bool(a.get("rendered", True)), gain=float(a.get("gain", 1.0)))
                        for a in f["animals"]]
-            frs.append(FrameSpec(code=code, H=f["H"], W=f["W"], animals=animals, video=vi, frame_idx=k,
-                                 undershoot=float(f.get("undershoot", 0.0))))
+            frs.append(FrameSpec(code=code, H=f["H"], W=f["W"], animals=animals, video=vi,
+                                 frame_idx=int(f.get("frame_idx", k)), undershoot=float(f.get("undershoot", 0.0)),
+                                 phantoms=[tuple(p) for p in f.get("phantoms", [])]))
             code += 7
         vids.append(frs)
     return vids
@@ -163,12 +165,14 @@ def gen_single_case(rng, refine=None):
             "batch": rng.randrange(1, 5), "refine": refine, "n_nodes": n_nodes, "videos": videos}
 
 
-def gen_topdown_case(rng, refine=None, max_instances=None, counts=(0, 1, 1, 2, 2, 3)):
+def gen_topdown_case(rng, refine=None, max_instances=None, counts=(0, 1, 1, 2, 2, 3), max_hw_fn=None):
     nv = rng.choice([1, 1, 2])
     sizes = gen_sizes(rng, nv)
     sc, ms_c, os_c = gen_stage(rng)
     si, ms_i, os_i = gen_stage(rng)
-    max_hw = gen_max_hw(rng, sizes)
+    # the FINAL size-matching target must be known before the animals are placed (their spacing is in
+    # cells of the centroid network's input)
+    max_hw = gen_max_hw(rng, sizes) if max_hw_fn is None else max_hw_fn(rng, sizes)
     crop = [rng.choice([16, 24, 32, 40, 48]), rng.choice([16, 24, 32, 40, 48])]
     n_nodes = rng.choice([2, 3])
     videos = []
@@ -317,6 +321,8 @@ def impl_single(case, provider, vids):
         LAST.update({"modes": list(net.mode_log),
                      "stats_changed": any(not (a[0].equal(b[0]) and a[1].equal(b[1]) and a[2] == b[2])
                                           for a, b in zip(before, after))})
+    if case.get("consumer"):
+        LAST["labeled_frames"] = stubs.labeled_frames_of(p, out)
     rows = []
     for di, o in enumerate(out):
         n = len(o["frame_idx"])
@@ -354,6 +360,8 @@ def impl_topdown(case, provider, vids):
         LAST.update({"modes": list(cnet.mode_log) + list(inet.mode_log),
                      "stats_changed": any(not (a[0].equal(b[0]) and a[1].equal(b[1]) and a[2] == b[2])
                                           for a, b in zip(before, after))})
+    if case.get("consumer"):
+        LAST["labeled_frames"] = stubs.labeled_frames_of(p, out)
     rows = []
     for gi, o in enumerate(out):
         n = len(o["frame_idx"])
